@@ -843,6 +843,7 @@ func specCase(s Spec, kind string) hx.Case {
 // otherPaths: also read the file through a reader with short reads, ply.Load and the ReadNode wrapper (set for the fixed
 // streams, every fourth generated file and every formula file)
 var otherPaths bool
+var thoroughTier bool
 var tmpDir string
 
 // malformed: headers and bodies that do not follow the specification, or use what the reader does not implement (model
@@ -1186,12 +1187,14 @@ func systematic() []Spec {
 				all.Verts = append(all.Verts, []uint64{255 - b, uint64(math.Float32bits(float32(b))), b, b, (b * 7) % 256, (b * 13) % 256})
 			}
 			out = append(out, all)
-			// ... and through the uchar Vector4 reader (colour with alpha)
-			rgba := sysSpec(f, []VProp{vp("uchar", "alpha"), vp("uchar", "blue"), vp("float", "x"), vp("uchar", "red"), vp("uchar", "green")}, r, 0)
-			for b := uint64(0); b < 256; b++ {
-				rgba.Verts = append(rgba.Verts, []uint64{b, 255 - b, uint64(math.Float32bits(float32(b))), (b * 7) % 256, (b * 13) % 256})
+			// ... and through the uchar Vector4 reader (colour with alpha); the ascii twin only in thorough runs
+			if f != "ascii" || thoroughTier {
+				rgba := sysSpec(f, []VProp{vp("uchar", "alpha"), vp("uchar", "blue"), vp("float", "x"), vp("uchar", "red"), vp("uchar", "green")}, r, 0)
+				for b := uint64(0); b < 256; b++ {
+					rgba.Verts = append(rgba.Verts, []uint64{b, 255 - b, uint64(math.Float32bits(float32(b))), (b * 7) % 256, (b * 13) % 256})
+				}
+				out = append(out, rgba)
 			}
-			out = append(out, rgba)
 		}
 		// S2
 		xyz := []VProp{vp("float", "x"), vp("float", "y"), vp("float", "z")}
@@ -1342,27 +1345,26 @@ func coinciding() []Spec {
 	return out
 }
 
-// -longlines: also generate ascii face lines that do not fit bufio.Scanner's default 64 KiB token (a face with a long
-// extra list property).  HEAD's reader reports "unexpected EOF" for them: finding, repair proposed in
-// fixes/C08-ply-long-ascii-lines.patch.  Off until known_findings.json lists key ply:line-over-64KiB (as known, or as
-// fixed once the patch landed): the plugin passes the flag then (or when C08_LONGLINES=1).
-var longLines bool
-
+// Ascii face lines that do not fit bufio.Scanner's default 64 KiB token (a face with a long extra list property): the
+// reader takes them since 89d15bb (finding 6 of notes/C08.md, key ply:line-over-64KiB).  Two files per run (the long
+// list after / before the indices).
 const keyLongLine = "ply:line-over-64KiB"
 
 func longLineSpecs() []Spec {
 	xyz := []VProp{vp("float", "x"), vp("float", "y"), vp("float", "z")}
 	idx := FProp{Ct: "uchar", Lt: "int", Name: "vertex_indices", CtAlias: "uchar", LtAlias: "int"}
-	nb := FProp{Ct: "int", Lt: "int", Name: "neighbours", CtAlias: "int", LtAlias: "int"}
+	// per-face samples, doubles around 1e-300 written in plain decimal notation: about 305 characters per item, so that
+	// 230 items make a line of 70 KB (cheap to evaluate: few tokens)
+	sm := FProp{Ct: "int", Lt: "double", Name: "samples", CtAlias: "int", LtAlias: "double"}
 	var out []Spec
-	for k, fps := range [][]FProp{{idx, nb}, {nb, idx}} {
-		s := Spec{Fmt: "ascii", Sep: " ", FloatFmt: "g", VProps: xyz, HasFace: true, FProps: fps,
+	for k, fps := range [][]FProp{{idx, sm}, {sm, idx}} {
+		s := Spec{Fmt: "ascii", Sep: " ", FloatFmt: "f", VProps: xyz, HasFace: true, FProps: fps,
 			Verts: [][]uint64{{f32(0), f32(0), f32(0)}, {f32(1), f32(0), f32(0)}, {f32(0), f32(1), f32(0)}}}
-		long := make([]uint64, 11000)
+		long := make([]uint64, 230)
 		for i := range long {
-			long[i] = uint64(100000 + i)
+			long[i] = math.Float64bits(2.5e-300 * float64(3+i))
 		}
-		for _, f := range [][][]uint64{{{0, 1, 2}, {7}}, {{2, 1, 0}, long}, {{1, 2, 0}, {}}} {
+		for _, f := range [][][]uint64{{{0, 1, 2}, {math.Float64bits(7)}}, {{2, 1, 0}, long}, {{1, 2, 0}, {}}} {
 			if k == 1 {
 				f[0], f[1] = f[1], f[0]
 			}
@@ -1415,10 +1417,10 @@ func corner() []Spec {
 
 func main() {
 	flag.BoolVar(&misplaced, "misplaced", false, "also generate elements before vertex / between vertex and face")
-	flag.BoolVar(&longLines, "longlines", false, "also generate ascii face lines longer than 64 KiB")
 	run := hx.ParseFlags("C08", "Check.C08")
 	run.ShardMax = 100 // a shard of 250 files needs 1.2 GB in coqc; 16 run in parallel
 	tmpDir = run.OutDir
+	thoroughTier = run.Tier == "thorough"
 	otherPaths = true // replayed and corpus files go through every read path
 	for _, in := range run.Inputs() {
 		var probe struct {
@@ -1476,16 +1478,21 @@ func main() {
 		run.Count("systematic:corners-vs-vertices")
 	}
 	small = append(small, concurrentCase(Concurrent{Specs: append(corner(), coinciding()...), Rounds: 3}))
-	if longLines {
-		for _, s := range longLineSpecs() {
-			c := specCase(s, "longline")
-			if c.FailKey == "" {
-				c.FailKey = keyLongLine
-			}
-			small = append(small, c)
+	for _, s := range longLineSpecs() {
+		c := specCase(s, "longline")
+		if c.FailKey == "" {
+			c.FailKey = keyLongLine
 		}
+		small = append(small, c)
 	}
-	for _, d := range systematicBig() {
+	// the same property names with other types, read right after one another (what a reader might remember by name)
+	for _, f := range []string{"binary_little_endian", "binary_big_endian"} {
+		first := sysSpec(f, []VProp{vp("float", "x"), vp("float", "y"), vp("float", "z"), vp("int", "id")}, hx.NewRng(0xAF7), 3)
+		second := sysSpec(f, []VProp{vp("double", "x"), vp("double", "y"), vp("double", "z"), vp("double", "id")}, hx.NewRng(0xAF8), 3)
+		small = append(small, pairCase(Pair{First: first, Second: second, Mode: "after"}),
+			pairCase(Pair{First: second, Second: first, Mode: "after"}))
+	}
+	for _, d := range systematicBig(run.Tier == "thorough") {
 		big = append(big, bigCase(d, "big-systematic"))
 	}
 	r := hx.NewRng(run.Seed)
@@ -1567,7 +1574,7 @@ func main() {
 			prev = &cp
 		}
 		// a random layout with a record count around a power-of-two number of body bytes
-		if i%60 == 22 {
+		if i%60 == 22 && (run.Tier == "thorough" || i < 60) {
 			d := genBig(r)
 			big = append(big, bigCase(d, "big"))
 			run.Count(fmt.Sprintf("big:%s", d.Fmt))
